@@ -12,7 +12,7 @@ QUICK_CASES = 1200  # generator items in the quick tier (fixed amount of work; B
 FLOOR = {"quick": 400, "thorough": 4000}
 TIMEOUT = 120
 HASHSEEDS = {"quick": [0, 1, 2, 3], "thorough": list(range(16))}
-REQUIRED_OBS = ["histories", "reloads", "load_records_checked", "contexts_compared", "untouched_contexts_verified", "reexecuted_contexts", "import_edges", "named_or_star_reloads", "app_config_changes", "counter_values_checked", "module_form_swaps"]
+REQUIRED_OBS = ["histories", "reloads", "load_records_checked", "contexts_compared", "untouched_contexts_verified", "reexecuted_contexts", "import_edges", "named_or_star_reloads", "app_config_changes", "counter_values_checked", "module_form_swaps", "option_flips"]
 RULE = (
     "real temp trees over pyscript/*.py, scripts/**, apps/<app>.py, apps/<app>/__init__.py + sibling, modules/<m>.py, modules/<pkg>/"
     "__init__.py + sibling with generated import edges (import m, from m import X, import pkg, relative imports inside packages, an app "
@@ -29,7 +29,7 @@ ASSUMPTIONS = [
     "an app never imports a different app as a module; mtimes set by the harness increase strictly",
     "a module that stays loaded after its last importer stopped importing it is left loaded (the code never unloads unchanged modules); the model does the same and this is reported in evidence as orphan_module_contexts",
 ]
-MODS = ["m1", "m2", "p1"]
+MODS = ["m1", "m1x", "m2", "p1"]  # m1x: a module whose name merely starts with another module's name
 
 
 def warm():
@@ -89,7 +89,7 @@ class Tree:
 
     def rand_imports(self, rel):
         r = self.rng
-        if rel in ("modules/m2.py", "modules/m2/__init__.py"):
+        if rel in ("modules/m2.py", "modules/m2/__init__.py", "modules/m1x.py"):
             return []
         allowed = MODS
         if rel in ("modules/m1.py", "modules/m1/__init__.py"):
@@ -293,6 +293,7 @@ class Model:
 def initial_tree(rng):
     t = Tree(rng)
     t.new_file("modules/m2.py")
+    t.new_file("modules/m1x.py")
     t.new_file("modules/m1.py")
     t.new_file("modules/p1/__init__.py")
     t.new_file("modules/p1/sub.py")
@@ -391,6 +392,11 @@ def run_case(case):
         if not await verify(w, "initial load", exp, 0):
             return
         nsteps = rng.randint(3, 10)
+        flipped = False
+        flips_allowed = rng.random() < 0.3
+        if flips_allowed:
+            # (the saved copy of the options that a flip is compared with only exists after a first reload)
+            await w.reload()
         for si in range(nsteps):
             present = tree.present()
             k = rng.random()
@@ -482,6 +488,12 @@ def run_case(case):
                 w.write(dst, tree.source(dst), mtime=tree.files[dst]["mtime"])
                 obs["module_form_swaps"] += 1
                 op = f"reform {src}->{dst}"
+            elif k < 0.96 and flips_allowed:
+                # a global option changes in the yaml configuration: that reload re-executes everything, later ones do not
+                w.config["allow_all_imports"] = not w.config.get("allow_all_imports", False)
+                flipped = True
+                obs["option_flips"] += 1
+                op = "flip allow_all_imports"
             else:
                 op = "nothing"
             # which reload
@@ -497,7 +509,12 @@ def run_case(case):
             cover["steps"].append(op.split()[0] + ("+" + ("star" if only == "*" else "named") if only else ""))
             start = len(w.rec)
             before = {c: e["gen"] for c, e in model.loaded.items()}
-            exp, status = model.reload(only)
+            if flipped:
+                only = "*" if only is None or only == "*" else only
+                exp, status = model.reload("*")
+                flipped = False
+            else:
+                exp, status = model.reload(only)
             await w.reload(only)
             if os.environ.get("VF_DEBUG"):
                 print(f"step {si}: {op}; reload({only!r}); apps={tree.apps}; model exec={exp}; got={[(r['ctx'], r['gen']) for r in w.rec[start:] if r['tag'] == 'load']}", flush=True)
